@@ -202,8 +202,16 @@ public:
 
     GaloisFieldDict &operator+=(const integer_class &other)
     {
-        if (dict_.empty() or other == integer_class(0))
+        if (other == integer_class(0))
             return down_cast<GaloisFieldDict &>(*this);
+        if (dict_.empty()) {
+            // 0 + c is the constant c (mod p), not 0
+            integer_class temp;
+            mp_fdiv_r(temp, other, modulo_);
+            if (temp != integer_class(0))
+                dict_.push_back(temp);
+            return down_cast<GaloisFieldDict &>(*this);
+        }
         integer_class temp = dict_[0] + other;
         mp_fdiv_r(temp, temp, modulo_);
         dict_[0] = temp;
